@@ -128,7 +128,7 @@ RECURSIVE Enc(_, _, _, _)
 Enc(v, ind, tab, depth) ==
   CASE v.t = "null" -> NullText
     [] v.t = "bool" -> ScalarText(v)
-    [] IsNumber(v) -> NumText(v).s
+    [] IsNumber(v) -> (IF v.t = "float" /\ "txt" \in DOMAIN v THEN v.txt ELSE NumText(v).s)      \* txt: the library encoder's text of a double (logged primitive)
     [] v.t = "str" -> QuoteStr(v.s)
     [] v.t = "arr" ->
          LET d2 == depth + ind
@@ -144,11 +144,14 @@ Enc(v, ind, tab, depth) ==
                           \o (IF ind >= 0 THEN <<32>> ELSE <<>>) \o Enc(v.o[i][2], ind, tab, d2) \o F(i + 1)
          IN <<123>> \o F(1) \o (IF Len(v.o) > 0 THEN NewLine(ind, tab, depth) ELSE <<>>) \o <<125>>
 
+\* gojq.Marshal (the library's compact encoder), used for the messages on stderr; doubles through their logged text
+CompactText(v) == Enc(v, -1, FALSE, 0)
+
 RECURSIVE Renderable(_)
 \* values whose text the model decides (opaque doubles, invalid UTF-8 are out of model)
 Renderable(v) ==
   CASE v.t \in {"null", "bool", "num", "big", "frac", "str"} -> TRUE
-    [] v.t = "float" -> v.f \in {"nan", "inf", "-inf"}
+    [] v.t = "float" -> v.f \in {"nan", "inf", "-inf"} \/ "txt" \in DOMAIN v
     [] v.t = "arr" -> \A i \in 1..Len(v.a) : Renderable(v.a[i])
     [] v.t = "obj" -> \A i \in 1..Len(v.o) : Renderable(v.o[i][2])
     [] OTHER -> FALSE
@@ -197,18 +200,18 @@ ErrDiag(ev) == Exact(TGojq \o ev.msg \o <<10>>)
 \* process, *gojq.HaltError branch: nothing for null, a string raw, anything else as compact JSON and a newline
 HaltDiag(ev) == IF ev.v.t = "null" THEN <<>>
                 ELSE IF ev.v.t = "str" THEN <<Exact(ev.v.s)>>
-                ELSE <<Exact(JsonText(ev.v).s \o <<10>>)>>
+                ELSE <<Exact(CompactText(ev.v) \o <<10>>)>>
 
 \* cli.funcDebug: ["DEBUG:",v] compact and a newline; cli.funcStderr: v raw (string) or compact, no newline
 TDebug == <<68,69,66,85,71,58>>                                                                  \* "DEBUG:"
 IsSide(ev) == ev.k \in {"dbg", "stderr"}
-SideDiag(ev) == IF ev.k = "dbg" THEN Exact(JsonText(Arr(<<Str(TDebug), ev.v>>)).s \o <<10>>)
-                ELSE Exact(IF ev.v.t = "str" THEN ev.v.s ELSE JsonText(ev.v).s)
+SideDiag(ev) == IF ev.k = "dbg" THEN Exact(CompactText(Arr(<<Str(TDebug), ev.v>>)) \o <<10>>)
+                ELSE Exact(IF ev.v.t = "str" THEN ev.v.s ELSE CompactText(ev.v))
 DbgEv(v) == [k |-> "dbg", v |-> v]
 SerrEv(v) == [k |-> "stderr", v |-> v]
 
 \* error.go exitCodeError.Error(): the text of the error `error(v)` raises
-ErrorText(v) == TErrorColon \o (IF v.t = "str" THEN v.s ELSE JsonText(v).s)
+ErrorText(v) == TErrorColon \o (IF v.t = "str" THEN v.s ELSE CompactText(v))
 \* events of the oracle
 ValEv(v) == [k |-> "val", v |-> v]
 ErrEv(v) == [k |-> "err", msg |-> ErrorText(v), v |-> v]   \* error(v): exitCodeError{v, 5} (v is only for the driver)
